@@ -69,7 +69,8 @@ def run_C06(tier, seed, t0):
 def run_C07(tier, seed, t0):
     bits = 64 if tier == 'thorough' else 34
     specs = [('harness.kernels', 'hilo_task', (bits,)), ('harness.kernels', 'sign_extend_task', ())]
-    specs += [('harness.pipe', 'hilo_pairs_task', (k, bits)) for k in range(7)]
+    from .pipe import HILO_TEMPLATES
+    specs += [('harness.pipe', 'hilo_pairs_task', (k, bits)) for k in range(len(HILO_TEMPLATES))]
     # the same pairs executed (any instruction length): compression off and on, sp included
     from .pipe import HILO_EXEC
     specs += [('harness.pipe', 'hilo_exec_task', (k, bits, c)) for k in range(len(HILO_EXEC)) for c in (False, True)]
@@ -186,7 +187,10 @@ def run_C03(tier, seed, t0):
     from .purity import SEQS
     extra = [('harness.purity', 'sequence_task', (i, 'shared-dicts', 'C03')) for i, q in enumerate(SEQS)
              if q[0] in ('ok_then_ok', 'same_names', 'compress_then_plain', 'compress_both_reordered_labels')]
-    return _run_layout('C03', tier, seed, t0, extra, dict(labels_argument='three two-call histories that pass the same labels dictionary to both calls'))
+    # the -l file of the command line: one line per label (labels that share an offset included) with the final address
+    extra += [('harness.cli', 'cli_task', (pg, av, 'C03')) for pg in ('ok_only', 'golden_align', 'li_label', 'labels_only') for av in ('o_l', 'l_hex')]
+    return _run_layout('C03', tier, seed, t0, extra, dict(labels_argument='three two-call histories that pass the same labels dictionary to both calls',
+                                                          label_file='four programs (two with labels sharing an offset) through cli_main with -l, with and without --hex-offset and -c'))
 
 
 def run_C08(tier, seed, t0):
@@ -336,7 +340,8 @@ def run_C14(tier, seed, t0):
     specs += [('harness.data', 'include_bytes_task', (k,)) for k in range(3)]
     from .history import BY_PROP as _HIST
     specs += [('harness.history', 'history_task', ('C14', sn, 40 if tier == 'thorough' else 34)) for sn in _HIST['C14']]
-    specs += [('harness.cli', 'cli_task', ('nested_i', 'i_vendor', 'C14')), ('harness.cli', 'cli_task', ('own_dir_i', 'i_src', 'C14'))]
+    specs += [('harness.cli', 'cli_task', ('nested_i', 'i_vendor', 'C14')), ('harness.cli', 'cli_task', ('own_dir_i', 'i_src', 'C14')),
+              ('harness.cli', 'cli_task', ('deep_i', 'o', 'C14'))]
     res = pmap(specs)
     return finish('C14', tier, seed, res, t0,
                   bounds=dict(histories='two assemble() calls in one process with the file system edited in between, second call compared with the same call in a fresh process for every 34/40-bit K0, both modes: ' + ', '.join(_HIST['C14']),
@@ -405,7 +410,7 @@ def run_C17(tier, seed, t0):
     hist = [('hist:' + h, av) for h in HISTORIES for av in (('default', 'o', 'o_l', 'l_hex') if tier != 'thorough' else ARGVS)]
     if tier != 'thorough':
         keep = {('range', a) for a in ARGVS} | {(pg, 'o_l') for pg in PROGRAMS} | {(pg, 'l_hex') for pg in PROGRAMS} | \
-               {('data', 'o_hex_bad'), ('li_label', 'hex_bad_l'), ('range', 'hex_sym'), ('li_label', 'hex_sym_l'), ('nolabels', 'defs_v'), ('nolabels', 'hex_sym_l'), ('needs_i', 'i_two'), ('needs_i', 'i_two_dup'), ('nested_i', 'i_vendor'), ('own_dir_i', 'i_src'), ('golden_align', 'o_l'), ('golden_align', 'l_hex'), ('range', 'hex_dec'), ('ok_only', 'hex_bin'), ('needs_i', 'i_dir'), ('needs_i', 'default'), ('ok_only', 'hex_sym'), ('included', 'i_dir'), ('ok_only', 'defs_v'), ('parse', 'i_bad'), ('li_label', 'default')}
+               {('data', 'o_hex_bad'), ('li_label', 'hex_bad_l'), ('range', 'hex_sym'), ('li_label', 'hex_sym_l'), ('nolabels', 'defs_v'), ('nolabels', 'hex_sym_l'), ('needs_i', 'i_two'), ('needs_i', 'i_two_dup'), ('nested_i', 'i_vendor'), ('own_dir_i', 'i_src'), ('golden_align', 'o_l'), ('golden_align', 'l_hex'), ('golden_far', 'o_l'), ('golden_far', 'l_hex'), ('range', 'hex_dec'), ('ok_only', 'hex_bin'), ('needs_i', 'i_dir'), ('needs_i', 'default'), ('ok_only', 'hex_sym'), ('included', 'i_dir'), ('ok_only', 'defs_v'), ('parse', 'i_bad'), ('li_label', 'default')}
         combos = [c for c in combos if c in keep]
     specs = [('harness.cli', 'cli_task', c) for c in combos + hist]
     res = pmap(specs)
